@@ -15,7 +15,7 @@ pub const START_DOCS: &[&str] = &[
     "<!DOCTYPE r [<!ENTITY e \"ee\"><!ATTLIST a d CDATA \"dv\">]><r>t1<a n=\"1\">&e;<![CDATA[cd]]></a><b><c><d>deep</d></c></b></r>",
     "<r xmlns=\"urn:d\" xmlns:p=\"urn:1\"><g><p:a p:k=\"1\" k=\"2\">\u{e9}\u{1F600}</p:a><b>one</b></g>two<s xmlns:p=\"urn:2\" xmlns=\"\"><p:c/><d>three</d></s></r>",
     "<?x y?><!DOCTYPE r><r><!--c1--><a>a-b-c</a><b>]]</b><c>1</c></r><!--end-->",
-    "<r><!--a-b-c--><![CDATA[]]x>]]><t>]]x></t><u q=\"x'\">-</u><!---x--></r>",
+    "<r><!--a-b-c--><![CDATA[]]x>]]><t>]]x></t><u q=\"x'\" w=\"]]>\">-</u><!---x--></r>",
 ];
 
 /// strings for names and data: harmless, markup-significant, multi-byte
@@ -250,6 +250,12 @@ fn collect(n: &XmlNode, out: &mut Vec<XmlNode>, depth: usize) {
     if let Some(attrs) = n.attributes() {
         for a in attrs.iter() {
             out.push(a.as_node());
+            // the value pieces of a written attribute are nodes too (a defaulted attribute's are shared: left out)
+            if a.as_node().id() != 0 {
+                for piece in a.as_node().child_nodes().iter() {
+                    out.push(piece);
+                }
+            }
         }
     }
     for c in n.child_nodes().iter() {
